@@ -112,6 +112,8 @@ type Scenario struct {
 	TracerCfg string         `json:"tracercfg,omitempty"`
 	Params    map[string]int `json:"params,omitempty"`
 	Ops       []Op           `json:"ops,omitempty"`
+	// Subs: independent worlds, one executor each, run side by side in one process (C17)
+	Subs []*Scenario `json:"subs,omitempty"`
 }
 
 func (s *Scenario) P(name string, def int) int {
